@@ -403,7 +403,7 @@ func TestVerifC06(t *testing.T) {
 	}
 	scale := 4
 	if VThorough() {
-		scale = 24
+		scale = 80
 	}
 	scale = VEnvInt("C06_SCALE", scale)
 
